@@ -4,18 +4,41 @@ package main
 
 import (
 	"bytes"
-	"go/printer"
 	"fmt"
 	"go/ast"
+	"go/printer"
 	"go/token"
 	"go/types"
 	"strings"
 )
 
 type closure struct {
-	lit  *ast.FuncLit
-	obj  types.Object
-	term Term
+	lit     *ast.FuncLit
+	obj     types.Object
+	term    Term
+	inlined bool // a local helper closure whose calls execute its body in place
+}
+
+// inlinable: a closure literal whose body has no return statement except possibly one as its last statement.
+func inlinable(lit *ast.FuncLit) bool {
+	ok := true
+	n := len(lit.Body.List)
+	for i, s := range lit.Body.List {
+		ast.Inspect(s, func(c ast.Node) bool {
+			switch c.(type) {
+			case *ast.FuncLit:
+				return false
+			case *ast.ReturnStmt:
+				if !(i == n-1 && c == ast.Node(s)) {
+					ok = false
+				}
+			case *ast.DeferStmt, *ast.GoStmt:
+				ok = false
+			}
+			return true
+		})
+	}
+	return ok
 }
 
 // ---------------------------------------------------------------------------
@@ -380,9 +403,47 @@ func (fv *FV) closureAxiom(st *State, x *ast.FuncLit, t Term) {
 	}
 }
 
+// callClosure executes the body of a local helper closure in place (the closure does not escape: it is called by name
+// in the function that declares it, so the captured variables are simply the caller's).
 func (fv *FV) callClosure(st *State, cl *closure, c *ast.CallExpr) []Term {
-	fv.fail(c.Pos(), "call of local closure %s", fv.src(c.Fun))
-	return nil
+	if !cl.inlined {
+		fv.fail(c.Pos(), "call of local closure %s", fv.src(c.Fun))
+	}
+	var pnames []*ast.Ident
+	for _, f := range cl.lit.Type.Params.List {
+		pnames = append(pnames, f.Names...)
+	}
+	if len(pnames) != len(c.Args) {
+		fv.fail(c.Pos(), "closure %s: argument count", fv.src(c.Fun))
+	}
+	var args []Term
+	for _, a := range c.Args {
+		args = append(args, fv.evalExpr(st, a))
+	}
+	for i, pn := range pnames {
+		if pn.Name != "_" {
+			v := args[i]
+			v.T = fv.info.Defs[pn].Type()
+			fv.setVar(st, fv.info.Defs[pn], v)
+		}
+	}
+	stmts := cl.lit.Body.List
+	var ret *ast.ReturnStmt
+	if n := len(stmts); n > 0 {
+		if r, ok := stmts[n-1].(*ast.ReturnStmt); ok {
+			ret, stmts = r, stmts[:n-1]
+		}
+	}
+	if end := fv.execBlock(st, stmts); end != nil && end != st {
+		*st = *end
+	}
+	var out []Term
+	if ret != nil {
+		for _, r := range ret.Results {
+			out = append(out, fv.evalExpr(st, r))
+		}
+	}
+	return out
 }
 
 // ---------------------------------------------------------------------------
